@@ -305,7 +305,7 @@ class Ctx:
             items = c.items if isinstance(c, UAnd) else [c]
             ft = all(not self.dom_of(u.v).disjoint(u.s) for u in items)
             ff = any(not self.dom_of(u.v).subset(u.s) for u in items)
-            rel = any(u.v.get_id() in self.relvars for u in items)
+            rel = any(u.v.get_id() in self.relvars for u in items) and not getattr(self, 'lazy_rel', False)
             if not rel or not (ft and ff):
                 self.fast += 1
                 if self.pos < len(self.decisions):
@@ -391,4 +391,5 @@ class Ctx:
         c._pushed_clauses = set(getattr(self, '_pushed_clauses', ()))
         c.primary = self.primary
         c.primary_params = self.primary_params
+        c.lazy_rel = getattr(self, 'lazy_rel', False)
         return c
